@@ -1,5 +1,6 @@
 //! Common machinery of the vaporetto verification harness.
 
+pub mod bytes;
 pub mod engine;
 pub mod gen;
 pub mod kytea;
